@@ -286,7 +286,7 @@ def compare_results(tag, x1, x2, stats, tolc=2e-5):
             if abs(d) > (5e-1 if ang else 1e3 * tolc):
                 fails.append("%s.adjusted_obs: %s %s->%s differ by %.3g" % (tag, a["tag"], a.get("from", a.get("id")), a.get("to", ""), d))
                 break
-            if abs(a["stdev"] - b["stdev"]) > 1e-2 * max(a["stdev"], b["stdev"]) + 1e-3:
+            if abs(a["stdev"] - b["stdev"]) > 1e-2 * max(a["stdev"], b["stdev"]) + 1e-2:      # (0.01 cc | mm: noise level of error-free cases)
                 fails.append("%s.obs_stdev: %s %.6g vs %.6g" % (tag, a["tag"], a["stdev"], b["stdev"]))
                 break
     return fails
